@@ -225,3 +225,16 @@ func init() {
 		Runs: []Run{{Pkg: hp + "c19", Variant: "real"}},
 	}
 }
+
+func init() {
+	specs["C18"] = &Spec{
+		Title: "Key files: every line counts or the whole file is rejected",
+		Level: "exploration",
+		LevelText: "Every file of <= 4/5 lines over a 21-kind line alphabet (valid keys, comments, blank/CR/space lines, keys with added whitespace, substituted, truncated, wrong-case and mixed-case keys, keys of the other kind, two keys on a line, garbage, trailing comments, NUL, BOM) x LF/CRLF x final newline is parsed by age.ParseIdentities and age.ParseRecipients and, through a hook file added to package main of cmd/age at build time, by the CLI's parseIdentities / parseRecipientsFile with plugin and SSH lines added (valid, unsupported-but-valid and malformed SSH keys); a reference parser gives the expected keys in order or the number of the first offending line; error texts are searched for every 8-character window of key material.",
+		LevelNote: "the CLI part needs cmd/age's unexported parser functions; if the hook does not compile on an edited tree that run is skipped (noted in evidence) and the library part alone decides",
+		Technique: "bounded-exhaustive input enumeration (line sequences) on the implementation, differential against a reference key-file parser",
+		Rule: "enumerate files as line sequences; oracle: exactly one key per non-blank non-comment line in order, or an error naming the first offending line; never keys with an error; no 8-character window of key material in error text. distinct_nontrivial counts distinct accepted files.",
+		Assumptions: commonAssume,
+		Runs: []Run{{Pkg: hp + "c18", Variant: "real"}, {Pkg: "cmd/age", Variant: "mainhook", Optional: true, Env: []string{"VERIF_HARNESS=c18cli", "VERIF_PROPERTY=C18"}}},
+	}
+}
